@@ -291,21 +291,43 @@ func c14Settings(r *Run, rep *core.Report, reach map[*ssa.Function]bool) {
 		if ct == nil {
 			continue
 		}
-		st, _ := ct.Underlying().(*types.Struct)
-		var avFields []string
-		for j := 0; j < st.NumFields(); j++ {
-			if n, ok := st.Field(j).Type().(*types.Named); ok && n.Obj().Pkg() != nil && n.Obj().Pkg().Path() == "sync/atomic" && n.Obj().Name() == "Value" {
-				avFields = append(avFields, st.Field(j).Name())
+		// the settings live in sync/atomic typed fields of the cache struct or of a struct nested in it by value
+		owners := map[string]*types.Named{ct.Obj().Name(): ct}
+		var avFields []string           // fields of type atomic.Value (dynamic type discipline applies)
+		atomicField := map[string]bool{} // "Owner.field" of every sync/atomic typed field
+		var walk func(n *types.Named, depth int)
+		walk = func(n *types.Named, depth int) {
+			st, _ := n.Underlying().(*types.Struct)
+			if st == nil || depth > 3 {
+				return
+			}
+			for j := 0; j < st.NumFields(); j++ {
+				ft := st.Field(j).Type()
+				if fn, ok := ft.(*types.Named); ok && fn.Obj().Pkg() != nil {
+					switch {
+					case fn.Obj().Pkg().Path() == "sync/atomic":
+						atomicField[n.Obj().Name()+"."+st.Field(j).Name()] = true
+						if fn.Obj().Name() == "Value" {
+							avFields = append(avFields, st.Field(j).Name())
+						}
+					case fn.Obj().Pkg().Path() == core.CachePath:
+						if _, isStruct := fn.Underlying().(*types.Struct); isStruct {
+							o := fn
+							if o.Origin() != nil {
+								o = o.Origin()
+							}
+							owners[o.Obj().Name()] = o
+							walk(o, depth+1)
+						}
+					}
+				}
+				if isFuncTyped(ft) || typeName(ft) == "time.Duration" || typeName(ft) == "Duration" {
+					rep.Fail("C14.A5", n.Obj().Name()+"."+st.Field(j).Name()+" plain settings field", r.P.Pos(st.Field(j).Pos()), "a setting readable concurrently with its setter is kept in a plain field instead of a sync/atomic typed field")
+				}
 			}
 		}
-		rep.MinCount("C14.A5", "atomic.Value settings fields of "+ct.Obj().Name(), len(avFields), 2)
-		// no plain func/duration settings fields
-		for j := 0; j < st.NumFields(); j++ {
-			ft := st.Field(j).Type()
-			if isFuncTyped(ft) || typeName(ft) == "time.Duration" || typeName(ft) == "Duration" {
-				rep.Fail("C14.A5", ct.Obj().Name()+"."+st.Field(j).Name()+" plain settings field", r.P.Pos(st.Field(j).Pos()), "a setting readable concurrently with its setter is kept in a plain field instead of atomic.Value")
-			}
-		}
+		walk(ct, 0)
+		rep.MinCount("C14.A5", "sync/atomic settings fields of "+ct.Obj().Name(), len(atomicField), 2)
 		stored := map[string]map[string]bool{}
 		loaded := map[string]map[string]bool{}
 		for _, f := range r.P.Funcs {
@@ -315,8 +337,8 @@ func c14Settings(r *Run, rep *core.Report, reach map[*ssa.Function]bool) {
 			core.Instrs(f, func(in ssa.Instruction) {
 				// whole-struct copies
 				if u, ok := in.(*ssa.UnOp); ok && u.Op.String() == "*" {
-					if n, ok := u.Type().(*types.Named); ok && (n == ct || n.Origin() == ct) {
-						rep.Fail("C14.A5", fn(f)+" copies "+ct.Obj().Name(), r.P.InstrPos(in), "the cache object (holding atomic.Value fields) is copied by value")
+					if n, ok := u.Type().(*types.Named); ok && n.Obj().Pkg() == ct.Obj().Pkg() && owners[n.Obj().Name()] != nil {
+						rep.Fail("C14.A5", fn(f)+" copies "+n.Obj().Name(), r.P.InstrPos(in), "the object holding the atomic settings fields is copied by value")
 					}
 				}
 				fa, ok := in.(*ssa.FieldAddr)
@@ -324,8 +346,19 @@ func c14Settings(r *Run, rep *core.Report, reach map[*ssa.Function]bool) {
 					return
 				}
 				a := core.Addr(fa)
-				if a.Owner != ct.Obj().Name() || !contains(avFields, a.Field) {
+				if owners[a.Owner] == nil || !atomicField[a.Owner+"."+a.Field] {
 					return
+				}
+				// a settings struct shared by both cache types: an access rooted in the other twin's object is not ours
+				if a.Root != nil {
+					if rn, ok := elemOf(a.Root.Type()).(*types.Named); ok {
+						if rn.Origin() != nil {
+							rn = rn.Origin()
+						}
+						if other := r.M.CacheT[1-i]; other != nil && rn == other && other != ct {
+							return
+						}
+					}
 				}
 				for _, ref := range *fa.Referrers() {
 					c, ok := ref.(ssa.CallInstruction)
@@ -363,7 +396,12 @@ func c14Settings(r *Run, rep *core.Report, reach map[*ssa.Function]bool) {
 					case "(*sync/atomic.Value).Swap", "(*sync/atomic.Value).CompareAndSwap":
 						rep.Pass("C14.A5", cons+" via "+id, r.P.InstrPos(ref), "atomic.Value operation")
 					default:
-						rep.Fail("C14.A5", cons+" otherwise", r.P.InstrPos(ref), fmt.Sprintf("settings field touched other than through atomic.Value Load/Store (%T)", ref))
+						if strings.HasPrefix(id, "(*sync/atomic.") && !contains(avFields, a.Field) {
+							// typed atomics (atomic.Int64, atomic.Pointer[T], ...): every method is an atomic operation of one static type
+							rep.Pass("C14.A5", cons+" via "+id[strings.LastIndex(id, ".")+1:], r.P.InstrPos(ref), "typed sync/atomic operation "+id)
+							break
+						}
+						rep.Fail("C14.A5", cons+" otherwise", r.P.InstrPos(ref), fmt.Sprintf("settings field touched other than through its sync/atomic methods (%T)", ref))
 					}
 				}
 			})
@@ -470,7 +508,7 @@ func c14Align(r *Run, rep *core.Report, reach map[*ssa.Function]bool) {
 			}
 			id := core.CalleeID(c)
 			if !strings.HasPrefix(id, "sync/atomic.") || !(strings.HasSuffix(id, "Int64") || strings.HasSuffix(id, "Uint64")) {
-				return
+				return // methods of atomic.Int64 / Uint64 need no check: those types are 8-byte aligned by the compiler
 			}
 			addr := c.Common().Args[0]
 			off, ok, why := offset386(sizes, addr)
@@ -523,7 +561,7 @@ func c14Align(r *Run, rep *core.Report, reach map[*ssa.Function]bool) {
 			rep.Check(off%8 == 0, "C14.A7", cons, r.P.InstrPos(in), fmt.Sprintf("offset %d under GOARCH=386 is 8-byte aligned", off), fmt.Sprintf("offset %d under GOARCH=386 is not 8-byte aligned", off))
 		})
 	}
-	rep.MinCount("C14.A7", "distinct 64-bit atomic operand paths", n, 5)
+	rep.MinCount("C14.A7", "distinct 64-bit atomic operand paths", n, 2)
 }
 
 // offset386 accumulates the byte offset of an address within its allocation unit (struct allocated by
